@@ -36,11 +36,32 @@ PROPS = {
                     'the system-level part uses the real clock for ~3 s (time.Sleep) with generous margins'],
         'assumptions': ['store clock and Redis server clock agree', 'timeouts are non-negative (uint32 seconds in the configuration)'],
     },
-    'C01': {'theorems': [], 'module': 'Handler0', 'trusted': []},
-    'C02': {'theorems': [], 'module': 'Handler0', 'trusted': []},
-    'C05': {'theorems': [], 'module': 'Handler0', 'trusted': []},
-    'C11': {'theorems': [], 'module': 'Handler0', 'trusted': []},
-    'C13': {'theorems': [], 'module': 'Handler0', 'trusted': []},
-    'C14': {'theorems': [], 'module': 'Handler0', 'trusted': []},
-    'C15': {'theorems': [], 'module': 'Handler0', 'trusted': []},
+    'C01': {
+        'theorems': ['ok_justified', 'fault_never_ok', 'run_ok_justified', 'run_matches_driver', 'no_cookie_never_ok', 'callback_never_ok', 'chain_ok_needs_all', 'redis_prefix_safe'],
+        'trusted': ['hand-written interaction-tree model of Process/redirectToIDP/retrieveTokens/refreshToken (AuthModel/Oidc/Handler.lean), tied to the code by the differential run (response + ordered action trace per request line)', 'oracles: jwt parsing and claims (jwx), JWS verification (checked against an independent stdlib RSA verification in the harness), SHA-256/base64url; url.Parse of the callback URI', 'store-level atomicity of one Redis method is assumed except in redis_prefix_safe'],
+    },
+    'C02': {
+        'theorems': ['bound_only_validated', 'validated_meaning', 'login_nonce_exact', 'merged_provenance', 'forwarded_eq_bound', 'same_header_drops_id', 'ok_headers'],
+        'trusted': ['hand-written interaction-tree model of Process/redirectToIDP/retrieveTokens/refreshToken (AuthModel/Oidc/Handler.lean), tied to the code by the differential run (response + ordered action trace per request line)', 'oracles: jwt parsing and claims (jwx), JWS verification (checked against an independent stdlib RSA verification in the harness), SHA-256/base64url; url.Parse of the callback URI', 'signature soundness of jwx/crypto is trusted; the key set is an oracle'],
+    },
+    'C05': {
+        'theorems': ['redirect_renews', 'writes_only_under_issued', 'cookie_name_host_prefix', 'set_cookie_shape', 'directives_match_source', 'name_parts_match_source', 'logout_expires_cookie'],
+        'trusted': ['hand-written interaction-tree model of Process/redirectToIDP/retrieveTokens/refreshToken (AuthModel/Oidc/Handler.lean), tied to the code by the differential run (response + ordered action trace per request line)', 'oracles: jwt parsing and claims (jwx), JWS verification (checked against an independent stdlib RSA verification in the harness), SHA-256/base64url; url.Parse of the callback URI', 'generator freshness (new id differs from the presented one) is a property of the entropy source (C06)'],
+    },
+    'C11': {
+        'theorems': ['refresh_request', 'merge_spec', 'rotated_refresh_token_replaces', 'omitted_refresh_token_kept', 'refresh_success_stores_and_forwards_merged', 'refresh_failure_removes_session', 'refresh_branch_outcomes'],
+        'trusted': ['hand-written interaction-tree model of Process/redirectToIDP/retrieveTokens/refreshToken (AuthModel/Oidc/Handler.lean), tied to the code by the differential run (response + ordered action trace per request line)', 'oracles: jwt parsing and claims (jwx), JWS verification (checked against an independent stdlib RSA verification in the harness), SHA-256/base64url; url.Parse of the callback URI', 'the ledger of issued refresh tokens lives in the harness monitor'],
+    },
+    'C13': {
+        'theorems': ['unescape_escape', 'escape_clean', 'authorization_location', 'parameter_roundtrip', 'requested_url_stored', 'requested_url_def', 'post_login_location', 'redirects_no_cache', 'no_cache_headers_match_source'],
+        'trusted': ['hand-written interaction-tree model of Process/redirectToIDP/retrieveTokens/refreshToken (AuthModel/Oidc/Handler.lean), tied to the code by the differential run (response + ordered action trace per request line)', 'oracles: jwt parsing and claims (jwx), JWS verification (checked against an independent stdlib RSA verification in the harness), SHA-256/base64url; url.Parse of the callback URI', 'parse(encode) is proved per parameter (escape/unescape), not for ParseQuery as a whole'],
+    },
+    'C14': {
+        'theorems': ['answers_are_catalogued', 'location_independent_of_secret', 'location_uses_verifier_only_via_challenge', 'fixed_denials_constant', 'cookie_and_logout_independent_of_secret', 'ok_adds_only_tokens'],
+        'trusted': ['hand-written interaction-tree model of Process/redirectToIDP/retrieveTokens/refreshToken (AuthModel/Oidc/Handler.lean), tied to the code by the differential run (response + ordered action trace per request line)', 'oracles: jwt parsing and claims (jwx), JWS verification (checked against an independent stdlib RSA verification in the harness), SHA-256/base64url; url.Parse of the callback URI', 'response bodies of library errors returned by Check are outside the model (scanned by the monitor)'],
+    },
+    'C15': {
+        'theorems': ['verdict_wellformed', 'nonstring_nonce_is_invalid', 'splitter_in_bounds', 'no_unexpected_type_assertions', 'no_unexpected_index_or_slice', 'no_explicit_panics'],
+        'trusted': ['hand-written interaction-tree model of Process/redirectToIDP/retrieveTokens/refreshToken (AuthModel/Oidc/Handler.lean), tied to the code by the differential run (response + ordered action trace per request line)', 'oracles: jwt parsing and claims (jwx), JWS verification (checked against an independent stdlib RSA verification in the harness), SHA-256/base64url; url.Parse of the callback URI', 'library code (jwx, encoding/json, url.ParseQuery, go-redis) is sampled by the differential run, not proved'],
+    },
 }
